@@ -23,7 +23,7 @@ def run_family(chk, jobs, helper_name):
                            "shape": [job["obj"]["h"], job["obj"]["w"]]},
                           f"{helper_name(job)} {d} a pattern on which the definition says {m['expected']}",
                           {"family": job["family"], "obj": job["obj"], "form": job["form"],
-                           "as_graph": bool(job.get("as_graph")), "nflags": job["nflags"],
+                           "as_graph": bool(job.get("as_graph")), "nflags": job["nflags"], "flip": job.get("flip", 0),
                            "pattern": m["pattern"], "flags": GR.bits_of(m["pattern"], job["nflags"]),
                            "expected": m["expected"], "observed": m["observed"]})
 
@@ -32,7 +32,7 @@ def replay_flags(pid, path):
     data = json.loads(open(path).read())
     bad = 0
     for c in data["cases"]:
-        job = {"family": c["family"], "obj": c["obj"], "form": c["form"], "as_graph": c["as_graph"],
+        job = {"family": c["family"], "obj": c["obj"], "form": c["form"], "as_graph": c["as_graph"], "flip": c.get("flip", 0),
                "nflags": c["nflags"], "patterns": [c["pattern"]], "expects": [c["expected"]]}
         mism = GR.run_flags(job)
         print(json.dumps({"obj": c["obj"], "form": c["form"], "flags": c["flags"], "expected": c["expected"],
